@@ -1,6 +1,22 @@
+//! mc-decoders: fault sweep over the ledger / address / mini-protocol decoders
+//! (C09).
+
+mod artefacts;
+mod c09;
+mod entries;
+mod faults;
+mod seeds;
+mod worker;
+mod world;
+
 fn main() {
+    let args: Vec<String> = std::env::args().collect();
+    if args.get(1).map(|s| s.as_str()) == Some("--c09-worker") {
+        worker::main(&args[2..]);
+    }
     let ctx = mc_core::Ctx::from_args();
     match ctx.prop.as_str() {
-        p => mc_core::report::machinery_failure(&format!("mc-decoders does not serve {p} yet")),
+        "C09" => c09::run(ctx),
+        p => mc_core::report::machinery_failure(&format!("mc-decoders does not serve {p}")),
     }
 }
